@@ -34,7 +34,10 @@ META = {
                   "sliding windows incl. repeated axes, and ALL input chunkings (chunks smaller than the depth, zero-width chunks "
                   "on tiny extents); trim(overlap(x)) = x, map_overlap(trim on/off, allow_rechunk on/off) = trim(f(pad(x))), "
                   "sliding_window_view = NumPy's; ensure_minimum_chunksize is checked against its contract and a TLA+ "
-                  "transcription. Random larger calls (to 3-d) are decided by TLC from recorded observations.",
+                  "transcription. A border stratum is never sampled out: for every depth d the chunkings of two or three blocks "
+                  "with lengths from {d-1, d, d+1, 2d-1, 2d, 1, 0} that contain a block shorter than d (first / middle / last; "
+                  "extents to 10, thorough 12), 1-d and along either axis of (e,2)/(2,e) arrays, under every boundary condition. "
+                  "Random larger calls (to 3-d) are decided by TLC from recorded observations.",
     "level_note": "Trusted: TLC, the TLA+ reference (cross-checked against numpy.pad / slicing / sliding_window_view on every "
                   "case; a disagreement is a machinery error), the block-assembly projection, NumPy per block. Bounded shapes; "
                   "quick tier samples (case, chunking) pairs; multi-array map_overlap, drop_axis/new_axis and push are not covered; "
@@ -43,7 +46,7 @@ META = {
 
 FAMS = ["overlap", "trim", "map", "swv", "emc"]
 INVS = ["CellCount", "TrimInverts", "OverlapCellsKnown", "BlocksEqualWhole", "MapReadsCentre", "MapNoneReadsNothingOutside",
-        "SwvFirstWindow", "EmcContract", "ChunkingsValid"]
+        "SwvFirstWindow", "EmcContract", "ChunkingsValid", "BorderCovers"]
 NP_MODE = {"periodic": "wrap", "reflect": "symmetric", "nearest": "edge", "constant": "constant"}
 
 
@@ -354,9 +357,10 @@ def classify(case, clause, run):
 
 
 # --------------------------------------------------------------------------- spec -> code
-def enumerate_cases(ctx, fams, n1, shapes2, emcn, label, zeron=3, maxd=3, invariants=INVS):
+def enumerate_cases(ctx, fams, n1, shapes2, emcn, label, zeron=3, maxd=3, invariants=INVS, lo1=1, cfgmode="full", border=0):
     spec, cfg = ctx.model(ctx.spec("array", "OverlapMC.tla"),
-                          {"Fams": set(fams), "N1": n1, "MaxD": maxd, "Shapes2": TLA(shapes2), "ZeroN": zeron, "EmcN": emcn},
+                          {"Fams": set(fams), "Lo1": lo1, "N1": n1, "MaxD": maxd, "Shapes2": TLA(shapes2), "ZeroN": zeron,
+                           "EmcN": emcn, "CfgMode": cfgmode, "Border": border},
                           invariants=invariants)
     return spec, cfg, label
 
@@ -368,20 +372,28 @@ def read_cases(ctx, prepared):
 
 
 def _guard(c):
-    if c["c"]["fam"] in ("emc", "chunkings"):
+    if c["c"]["fam"] in ("emc", "chunkings", "border"):
         return None
     ref = np_reference(c["c"])
     return None if same_result(ref, c["e"]) else ref
 
 
 def group_cases(cases):
-    """-> (groups: [(case without eff, exp)], chunkings: {shape: [chunking]}, emc: [(case, exp)])"""
-    chunkings, emc, groups, tables = {}, [], [], {}
+    """-> (groups: [(case without eff, exp)], chunkings: {shape: [chunking]}, emc: [(case, exp)]); the border chunkings
+    per depth are left in group_cases.border"""
+    chunkings, emc, groups, tables, seen = {}, [], [], {}, set()
+    group_cases.border = {}
     for c in cases:
         case, e = c["c"], c["e"]
         fam = case["fam"]
+        key = json.dumps(case, sort_keys=True)
+        if key in seen:
+            continue            # the same case enumerated by two TLC jobs
+        seen.add(key)
         if fam == "chunkings":
             chunkings[tuple(case["shape"])] = e["all"]
+        elif fam == "border":
+            group_cases.border[case["d"]] = [list(sq) for sq in e["all"]]
         elif fam == "emc":
             emc.append((case, e))
         elif fam == "overlap":
@@ -441,16 +453,17 @@ def expected_for_replay(case, exp, detail):
     return {"err": exp["err"], "table": {key: exp["table"][key]} if key in exp["table"] else {}}
 
 
-def replay_cases(ctx, groups, chunkings, cap, nvariants):
+def replay_cases(ctx, groups, chunkings, cap, nvariants, always=()):
+    """`always`: (group, chunking) pairs of the border stratum - run whatever the sampling of the rest does."""
     pairs = []
     for gi, (case, exp) in enumerate(groups):
-        for ch in chunkings[tuple(case["shape"])]:
+        for ch in chunkings.get(tuple(case["shape"]), []):
             pairs.append((gi, ch))
-    total = len(pairs)
-    sampled = total * nvariants > cap
+    total = len(pairs) + len(always)
+    sampled = len(pairs) * nvariants > cap
     if sampled:
         pairs = ctx.rng.sample(pairs, max(1, cap // nvariants))
-        pairs.sort(key=lambda p: p[0])
+    pairs = sorted(list(pairs) + list(always), key=lambda p: p[0])
     by = {}
     for gi, ch in pairs:
         for _ in range(nvariants):
@@ -467,6 +480,81 @@ def replay_cases(ctx, groups, chunkings, cap, nvariants):
                               % (cl, case["fam"], (" (%s)" % detail["obs"].get("msg")) if detail["obs"].get("msg") else ""),
                               {"case": case, "expected": expected_for_replay(case, exp, detail), "run": run, "observed": detail})
     return items, total, sampled
+
+
+# --------------------------------------------------------------------------- the border stratum
+def border_layouts(d, seq, n2, full):
+    """A border chunking of one axis as chunkings of arrays: 1-d, and along either axis of a 2-d array with a short other axis."""
+    e = sum(seq)
+    out = [([e], [list(seq)], 0)]
+    if d <= 2 and 3 <= e <= n2:
+        others = ([2], [1, 1]) if full else (([2], [1, 1])[(e + len(seq)) % 2],)
+        for o in others:
+            out.append(([e, 2], [list(seq), list(o)], 0))
+            out.append(([2, e], [list(o), list(seq)], 1))
+    return out
+
+
+def _stratum_cfg(case, axis, d):
+    """Is the case one the stratum pairs with a border chunking of depth d along `axis`?  -> None | (mode, primary)"""
+    fam, nd = case["fam"], len(case["shape"])
+    if fam == "swv":
+        if case["axnone"] or len(case["w"]) != 1 or case["axes"] != [axis] or case["w"][0] != d + 1:
+            return None
+        return ("-", True)
+    dp, bnd = case["depth"], case["bnd"]
+    mode = bnd[axis]
+    if dp[axis] == [d, d]:
+        pass
+    elif nd == 1 and d >= 1 and dp[0] == [d, d - 1] and mode == "none":
+        mode = "none-asym"
+    else:
+        return None
+    if nd == 2:
+        o = 1 - axis
+        if not ((dp[o] == [0, 0] and bnd[o] == "none") or (dp[o] == [1, 1] and bnd[o] == bnd[axis])):
+            return None
+    primary = True
+    if fam == "map":
+        want = [list(x) for x in dp] if nd == 1 else [[min(x[0], 1), min(x[1], 1)] for x in dp]
+        primary = [list(r) for r in case["rad"]] == want
+    return (mode, primary)
+
+
+def border_stratum(groups, border, n2, full):
+    """-> (always: [(group index, chunking)], records: [(id, overlap case, run)]).
+    Thorough (full): every stratum case under every border chunking.  Quick: for every border chunking and every boundary
+    condition the map_overlap case with the widest stencil, plus one of trim / overlap / sliding window in rotation."""
+    byshape = {}
+    for gi, (case, _e) in enumerate(groups):
+        byshape.setdefault(tuple(case["shape"]), []).append(gi)
+    always, records, rot = [], [], 0
+    for d in sorted(border):
+        for seq in border[d]:
+            for shape, chunking, axis in border_layouts(d, seq, n2, full):
+                cand = {}
+                for gi in byshape.get(tuple(shape), []):
+                    m = _stratum_cfg(groups[gi][0], axis, d)
+                    if m is not None:
+                        cand.setdefault((groups[gi][0]["fam"], m[0]), []).append((gi, m[1]))
+                modes = sorted({k[1] for k in cand if k[0] == "map"})
+                for mode in modes:
+                    maps = cand.get(("map", mode), [])
+                    prim = [gi for gi, p in maps if p] or [gi for gi, _p in maps[:1]]
+                    if len(shape) == 2 and not full:
+                        prim = prim[(rot % len(prim)):][:1]        # one of the two short-axis options
+                    always += [(gi, chunking) for gi in (prim if not full else [gi for gi, _p in maps])]
+                    others = ["trim", "overlap", "swv"] if full else [("trim", "overlap", "swv")[rot % 3]]
+                    rot += 1
+                    for fam in others:
+                        got = cand.get((fam, mode if fam != "swv" else "-"), [])
+                        if got:
+                            always += [(gi, chunking) for gi, _p in (got if full else got[:1])]
+                        elif fam == "overlap" and maps:
+                            c0 = groups[maps[0][0]][0]           # no enumerated table for this shape: TLC decides the record
+                            case = {"fam": "overlap", "shape": c0["shape"], "depth": c0["depth"], "bnd": c0["bnd"]}
+                            records.append(("b%d" % len(records), case, {"chunks": chunking, "v": {"alt": rot % 12}}))
+    return always, records
 
 
 # --------------------------------------------------------------------------- ensure_minimum_chunksize
@@ -593,18 +681,24 @@ def run(ctx):
     shapes2 = ctx.pick("{<<2, 3>>, <<3, 4>>}", "{<<1, 4>>, <<2, 3>>, <<3, 2>>, <<3, 4>>, <<4, 4>>}")
     emcn = ctx.pick(8, 10)
     none2 = "{}"
+    bn, bn2 = ctx.pick(10, 12), ctx.pick(6, 7)       # extents of the border stratum: 1-d, long axis of 2-d
+    bshapes2 = "{" + ", ".join("<<%d, 2>>, <<2, %d>>" % (e, e) for e in range(3, bn2 + 1)) + "}"
     jobs = [enumerate_cases(ctx, ["overlap"], n1, none2, emcn, "overlap-1d"),
             enumerate_cases(ctx, ["overlap"], 0, shapes2, emcn, "overlap-2d"),
             enumerate_cases(ctx, ["map"], n1, none2, emcn, "map_overlap-1d"),
             enumerate_cases(ctx, ["map"], 0, shapes2, emcn, "map_overlap-2d"),
-            enumerate_cases(ctx, ["trim", "swv", "emc"], n1, shapes2, emcn, "trim+sliding_window+ensure_minimum_chunksize")]
+            enumerate_cases(ctx, ["trim", "swv", "emc"], n1, shapes2, emcn, "trim+sliding_window+ensure_minimum_chunksize"),
+            enumerate_cases(ctx, ["trim", "map", "swv"], bn, bshapes2, emcn, "border-stratum", lo1=n1 + 1, cfgmode="border",
+                            border=bn)]
     parts = in_parallel([functools.partial(read_cases, ctx, j) for j in jobs])
-    cases = [c for p in parts for c in p]
+    # TLC's workers write the state dump in no particular order: sort, so that seeded sampling is reproducible
+    cases = sorted((c for p in parts for c in p), key=lambda c: json.dumps(c["c"], sort_keys=True))
     for c, bad in zip(cases, pmap(_guard, cases, chunk=64)):
         if bad is not None:
             raise MachineryError("TLA+ reference disagrees with NumPy on %r: numpy=%r spec=%r" % (c["c"], bad, c["e"]))
     groups, chunkings, emc = group_cases(cases)
-    items, total, sampled = replay_cases(ctx, groups, chunkings, ctx.pick(8000, 60000), 1)
+    always, brecs = border_stratum(groups, group_cases.border, bn2, not ctx.quick)
+    items, total, sampled = replay_cases(ctx, groups, chunkings, ctx.pick(6000, 50000), 1, always=always)
     for it in items[:3]:
         ctx.sample({"case": it[0], "run": it[2][0]})
     # ensure_minimum_chunksize: real results against the transcription (informative) and the contract (TLC decides)
@@ -612,7 +706,7 @@ def run(ctx):
     for r in recs:
         ctx.count(("emc", r["c"]), r["c"]["size"] > min(r["c"]["chunks"]))
     # code -> spec: random larger calls
-    for r in pmap(_record, random_runs(ctx, ctx.pick(500, 5000)), chunk=16):
+    for r in pmap(_record, brecs + random_runs(ctx, ctx.pick(500, 5000)), chunk=16):
         if "skip" in r:
             ctx.skip(r["skip"])
             continue
@@ -624,6 +718,8 @@ def run(ctx):
     ctx.extra["cases_enumerated_by_tlc"] = len(cases) - len(chunkings)
     ctx.extra["chunkings_enumerated_by_tlc"] = sum(len(v) for v in chunkings.values())
     ctx.extra["case_x_chunking_pairs"] = total
+    ctx.extra["border_stratum_runs_never_sampled_out"] = len(always) + len(brecs)
+    ctx.extra["border_chunkings_per_depth"] = {str(d): len(v) for d, v in sorted(group_cases.border.items())}
     ctx.extra["emc_results_differing_from_transcription"] = diverged
     ctx.rule = ("cases = TLC-enumerated (family, shape, depths, boundaries, radius/window) x TLC-enumerated chunkings of the "
                 "input x option/spelling variants, plus recorded random calls and ensure_minimum_chunksize calls; non-trivial = "
@@ -686,6 +782,24 @@ def _selftest_replay(groups, chunkings, emc, seed=5, n=450):
     return bad, sigs
 
 
+def _border_replay(groups, always):
+    """The border stratum (chunkings without zero-width blocks), serially.  -> (#violations, {signature})"""
+    import random
+    rng = random.Random(9)
+    bad, sigs = 0, set()
+    for gi, ch in always:
+        if any(0 in ax for ax in ch):
+            continue
+        case, exp = groups[gi]
+        run = {"chunks": ch, "v": variant(case, rng, ch)}
+        obs, got = run_dask(case, run)
+        cl = judge(case, exp, obs, got)
+        if cl:
+            bad += 1
+            sigs.add(classify(case, cl, run))
+    return bad, sigs
+
+
 def selftest(ctx):
     import copy
     import importlib
@@ -700,6 +814,22 @@ def selftest(ctx):
     print("selftest C26: unmutated dask on the self-test case set (%d groups): %d violations %s -> %s"
           % (len(groups), base_n, sorted(sigs), "ok" if base_n == 0 else "FAILED"))
     ok &= base_n == 0
+    # the border stratum: chunkings around a block shorter than the depth, depth 3, extents 6 .. 9
+    bcases = read_cases(ctx, enumerate_cases(ctx, ["map"], 9, "{}", 6, "selftest-border", zeron=0, lo1=6, cfgmode="border", border=9,
+                                             invariants=["CellCount", "MapReadsCentre", "BorderCovers"]))
+    bgroups, _c, _e = group_cases(bcases)
+    balways, _r = border_stratum(bgroups, {3: group_cases.border[3]}, 0, False)
+    bn0, bsigs = _border_replay(bgroups, balways)
+    print("selftest C26: unmutated dask on the border stratum (%d runs): %d violations %s -> %s"
+          % (len(balways), bn0, sorted(bsigs), "ok" if bn0 == 0 else "FAILED"))
+    ok &= bn0 == 0
+    with mutant(ovm, "ensure_minimum_chunksize", "if new > size + (size - c):", "if new > size:"):
+        # only the contract-free part of the check: map_overlap itself must notice the short lending chunk
+        bn1, bsigs = _border_replay(bgroups, balways)
+    print("selftest C26: mutant M0 overlap.ensure_minimum_chunksize: borrow when new > size + (size - c) -> new > size  "
+          "[the lending chunk gets shorter than the depth], border stratum only: %d violations %s -> %s"
+          % (bn1, sorted(bsigs)[:3], "DETECTED" if bn1 > 0 else "MISSED"))
+    ok &= bn1 > 0
     mutants = [
         ("M1 overlap._trim: last block test `chunks - 1` -> `chunks`  [boundary off by one: the last block loses its tail]",
          ovm, "_trim", 'chunk_location == chunks - 1 and boundary.get(i, "none") == "none"',
